@@ -236,12 +236,22 @@ def r5_label_and_value(rep, ctx, RID="C03.R5"):
         want_map = fn.params[1] if side == fn.params[3] else fn.params[2]
         other_map = fn.params[2] if side == fn.params[3] else fn.params[1]
         side_ok = False
+        P_want, P_other = ("param", fn.params.index(want_map), want_map), ("param", fn.params.index(other_map), other_map)
         for k, l_, r_, pos in nfacts(cfg, cfg.node_of(st)):
+            operands = None
             if k == "is" and l_ is not None and r_ is not None:
-                names_ = {ast.unparse(l_), ast.unparse(r_)}
-                if want_map in names_ and pos:
+                operands = {res.term(l_), res.term(r_)}
+            elif k == "truth":
+                # a flag hoisted out of the loop: `is_first = c is <map>`
+                tt_ = res.term(l_)
+                if tt_[0] == "op" and tt_[1] in ("cmp:Is", "cmp:IsNot") and len(tt_[2]) == 2:
+                    operands = set(tt_[2])
+                    if tt_[1] == "cmp:IsNot":
+                        pos = not pos
+            if operands is not None:
+                if P_want in operands and pos:
                     side_ok = True
-                if other_map in names_ and not pos:
+                if P_other in operands and not pos:
                     side_ok = True
         rep.check(val_ok and from_ok and to_ok and side_ok, RID, "_MatchQuantities:convert:%s" % side, "%s is converted from the entry's unit to the reference unit, in the arm of its own map" % side,
                   "`%s` does not convert %s from the entry's unit to the reference unit in the arm of its own map (value %s, from %s, to %s, arm %s)" % (norm(ast.unparse(st)), side, val_ok, from_ok, to_ok, side_ok), node=st, fn=fn)
